@@ -7,6 +7,7 @@
 import Proofs.C01
 import Proofs.Lemmas.InprocAll
 import Proofs.Lemmas.InprocUnaryAll
+import Proofs.Lemmas.HttpUnary
 
 namespace InprocStream
 
@@ -179,3 +180,29 @@ theorem C04_http_cancel_unblocks (s : St) (r : Reason) (hctx : s.ctx = some r) :
   · intro h; simp [step, h, hctx]
 
 end HttpClientStream
+
+namespace HttpUnary
+open InprocStream (HErr Reason Res codeOf)
+
+/-- **Unary calls over HTTP whose context ends**: wherever the end of the context falls — before the
+    reply, or after the reply headers while the body is being read, whichever branch the final
+    select takes — `Invoke` returns the Canceled / DeadlineExceeded status, or the complete real
+    result of an error reply; never a bare context error, io.EOF or another non-status error.
+    (Depends on the regenerated fact that a body-read error met after the select is translated;
+    the code before the repair 8686b2a returned it raw: 11 of 60 runs of the harness's
+    `unaryCancelAfterReplyHeaders`.) -/
+theorem C04_http_unary_cancel_is_status (r : Reply) (at_ : CancelAt) (reason : Reason) :
+    clientCancelled r at_ reason = .status (codeOf reason) ∨
+    ∃ c, c ≠ 0 ∧ clientCancelled r at_ reason = .status c ∧ (client r).result = .status c := by
+  cases at_ with
+  | beforeReply => left; rfl
+  | afterHeaders took =>
+    unfold clientCancelled client
+    generalize replyCode r = code
+    by_cases h0 : code = 0
+    · left; cases took <;> simp [h0, Gen.unaryBodyErrTranslated]
+    · right; exact ⟨code, h0, by simp [h0], by simp [h0]⟩
+
+theorem C04_http_unary_body_error_fact : Gen.unaryBodyErrTranslated = true := by decide
+
+end HttpUnary
